@@ -4,6 +4,7 @@ import Sop.Lemmas.CommitPhase1
 import Sop.Lemmas.CommitSuccess
 import Sop.Lemmas.CommitPhase2Fail
 import Sop.Lemmas.CommitPhase2After
+import Sop.Lemmas.CommitCount
 /-!
 # C01 — a committed transaction's changes appear all-or-nothing across every store
 
@@ -168,6 +169,18 @@ theorem C01_ok_every_updated_node_advances (s0 : State) (w : WS) (fresh0 : List 
   by_cases hz : h.inactive = 0
   · exact .inl hz
   · exact .inr (hnew h hm hz)
+
+/-- **…and the store counts move by exactly the write set's deltas, in every store at once**: after a commit that
+returned ok (under any tolerated fault) the count of every store is its old count plus that store's delta — the one
+`StoreRepository.Update` of `commitStores` is the only thing on the success path that touches a count. (A write set
+without tracked items commits nothing: the counts stay.) -/
+theorem C01_ok_applies_count_deltas (s0 : State) (w : WS) (fresh0 : List (UUID × UUID)) (fault : Option Fault)
+    (tid : Tid) (n : Nat) (r2 : Run)
+    (hok : commit w n { s := s0, tid := tid, fault := fault, fresh := fresh0 } = (.ok, r2)) :
+    r2.s.cnt = if w.hasTracked then w.countsAfter s0 else s0.cnt :=
+  commit_ok_counts fault tid n r2 hok
+
+example : (Witness.wSplit.countsAfter Witness.s0) 0 = 6 := by decide +kernel
 
 /-- the premises are satisfiable by a non-trivial state (node updated + node added + staged id) -/
 theorem C01_premises_satisfiable : Pre Witness.s0 Witness.wSplit [(1, 9)] := Witness.pre_wSplit
